@@ -28,6 +28,7 @@ type Profile struct {
 	FaultPct    int            // percentage of ops that get an injected storage fault
 	NoReplay    bool           // never reuse bytes/proofs of other ops (needed for isolation comparisons)
 	PlantPct    int            // percentage of refresh ops preceded by planting a day-old cosignature
+	DrvFaults   bool           // faults may also hit SQL driver calls
 }
 
 // ProdWKeys is the key set cmd/omniwitness configures: legacy + cosignature/v1 with
@@ -90,7 +91,7 @@ func weighted(t *rapid.T, w map[string]int, label string) string {
 	return keys[len(keys)-1]
 }
 
-var opClassOrder = []string{"grow", "refresh", "fork", "wrongold", "badproof", "replay", "garbage", "unkroot", "oddroot", "wrongkey", "wrongorigin", "unknownlog", "smaller", "decorated", "zero", "mismatch"}
+var opClassOrder = []string{"grow", "refresh", "fork", "wrongold", "badproof", "replay", "garbage", "unkroot", "oddroot", "wrongkey", "wrongorigin", "unknownlog", "smaller", "decorated", "zero", "mismatch", "tofufork"}
 
 // DefaultWeights is the adversarial mix used by most history properties.
 var DefaultWeights = map[string]int{"grow": 30, "refresh": 8, "fork": 12, "wrongold": 8, "badproof": 12, "replay": 4, "garbage": 5, "unkroot": 3, "oddroot": 1, "wrongkey": 4, "wrongorigin": 3, "unknownlog": 2, "smaller": 4, "decorated": 4, "mismatch": 5}
@@ -222,10 +223,21 @@ func GenHist(t *rapid.T, p Profile) *HistCase {
 	for i := 0; i < nops; i++ {
 		op := genOp(t, p, w, i, nlogs, nb, len(c.WKeys))
 		if Pct(t, p.FaultPct, "faulty") {
-			op.Faults = []FaultSpec{{
-				Point: rapid.SampledFrom([]string{PWriteOps, PWriteGet, PWriteSet, PWriteClos}).Draw(t, "fpoint"),
-				Code:  rapid.SampledFrom([]string{"plain", "unavailable", "internal", "deadline"}).Draw(t, "fcode"),
-			}}
+			points := []string{PWriteOps, PWriteGet, PWriteSet, PWriteClos}
+			if p.DrvFaults {
+				points = append(points, DBegin, DPrepare, DQuery, DRowsNext, DExec, DStmtClose, DCommit, DRollback)
+			}
+			nf := 1
+			if p.DrvFaults && rapid.Bool().Draw(t, "twofaults") {
+				nf = 2
+			}
+			for k := 0; k < nf; k++ {
+				op.Faults = append(op.Faults, FaultSpec{
+					Point: points[Uniform(t, len(points), "fpoint")],
+					Code:  rapid.SampledFrom([]string{"plain", "unavailable", "internal", "deadline"}).Draw(t, "fcode"),
+					Nth:   rapid.IntRange(0, 1).Draw(t, "fnth"),
+				})
+			}
 		}
 		if op.Note == "refresh" && Pct(t, p.PlantPct, "plant") {
 			pl := op
@@ -391,6 +403,12 @@ func genOp(t *rapid.T, p Profile, w map[string]int, i, nlogs, nb, nwk int) Op {
 			op.Cp.RootTag = rapid.IntRange(0, 3).Draw(t, "mmtag")
 		}
 		op.Proof.Kind = rapid.SampledFrom([]string{"empty", "correct", "random"}).Draw(t, "mmproof")
+	case "tofufork":
+		// a validly signed checkpoint of another branch presented as if it were first use
+		op.Cp.Branch = rapid.IntRange(0, nb-1).Draw(t, "tfbranch")
+		op.Cp.Size = SizeSpec{Rel: "cur", N: int64(rapid.IntRange(-3, 6).Draw(t, "tfdelta"))}
+		op.Old = SizeSpec{Rel: "abs", Abs: 0}
+		op.Proof.Kind = "empty"
 	case "decorated":
 		grow()
 		if rapid.IntRange(0, 3).Draw(t, "dsame") == 0 {
